@@ -336,33 +336,35 @@ func (e *Encoder) EncodePackedFloat64(tag int, vs []float64) {
 
 // EncodeNested writes a nested message to the buffer preceded by the varint-encoded tag key.
 func (e *Encoder) EncodeNested(tag int, m interface{}) error {
-	sz := Size(m)
-	e.offset += EncodeTag(e.p[e.offset:], tag, WireTypeLengthDelimited)
-	e.offset += EncodeVarint(e.p[e.offset:], uint64(sz))
-	switch tv := m.(type) {
-	case MarshalerTo:
+	if tv, ok := m.(MarshalerTo); ok {
+		sz := Size(m)
+		e.offset += EncodeTag(e.p[e.offset:], tag, WireTypeLengthDelimited)
+		e.offset += EncodeVarint(e.p[e.offset:], uint64(sz))
 		if err := tv.MarshalTo(e.p[e.offset:]); err != nil {
 			return err
 		}
 		e.offset += sz
 		return nil
-	case Marshaler:
-		buf, err := tv.Marshal()
-		if err != nil {
-			return err
-		}
-		copy(e.p[e.offset:], buf)
-		e.offset += sz
-		return nil
-	default:
-		buf, err := Marshal(tv)
-		if err != nil {
-			return err
-		}
-		copy(e.p[e.offset:], buf)
-		e.offset += sz
-		return nil
 	}
+	// the message cannot marshal itself in place: marshal it first so that the length prefix and
+	// the cursor always agree with the bytes that are written, even if m does not report a size
+	var (
+		buf []byte
+		err error
+	)
+	if tv, ok := m.(Marshaler); ok {
+		buf, err = tv.Marshal()
+	} else {
+		buf, err = Marshal(m)
+	}
+	if err != nil {
+		return err
+	}
+	e.offset += EncodeTag(e.p[e.offset:], tag, WireTypeLengthDelimited)
+	e.offset += EncodeVarint(e.p[e.offset:], uint64(len(buf)))
+	copy(e.p[e.offset:], buf)
+	e.offset += len(buf)
+	return nil
 }
 
 // EncodeRaw writes the raw bytes of d into the buffer at the current offset
